@@ -763,6 +763,8 @@ pub fn run(args: &Args) {
         if failed.contains(&(o.src, o.i)) { continue; }
         let (p, arg, bytes, origin) = srcs[o.src].get(o.i);
         if ps[p].model == 0 || coq_len(&bytes) > 600 || shards.len() >= 2 * coq_budget { continue; }
+        // rANS: an expected length the model would have to materialise symbol by symbol
+        if (120..=123).contains(&ps[p].model) && arg > (1 << 16) && arg <= 100 * 1024 * 1024 { continue; }
         let term = coq_case(ps[p].model, arg, &aux_of(p), &bytes, o.code, &o.vals);
         let mut cj = case_json(ps[p].name, arg, &bytes, origin);
         cj["impl_obs"] = json!({"code": o.code, "vals": o.vals.iter().map(|x| x.to_string()).collect::<Vec<_>>()});
